@@ -106,7 +106,13 @@ def _stmt(s):
     if k in ("Sequence", "Parallel"):
         sub = [x for x in (_stmt(c) for c in s["stmts"]) if x is not None]
         return {"k": "Seq", "sid": s["sid"], "stmts": sub}
-    if k in ("DebugInfo", "LogTimer", "LogRelationTimer"):
+    if k == "DebugInfo":
+        b = _stmt(s["body"])
+        m = re.search(r"\[(\d+):\d+-\d+:\d+\]\s*$", s.get("msg", ""))
+        if b is not None and b["k"] == "Query" and m:
+            b["line"] = int(m.group(1))      # source line of the clause this query was generated from
+        return b
+    if k in ("LogTimer", "LogRelationTimer"):
         return _stmt(s["body"])
     if k in ("LogSize", "EstimateJoinSize"):
         return None
